@@ -12,10 +12,10 @@ Local Open Scope Z_scope.
 (* ======================================================================== *)
 (* what a root dispatch must log                                             *)
 (* ======================================================================== *)
-(* text appended to loc for a matching port: scat(name) or, for '#' names,
-   the matched part of the message *)
+(* text appended to loc for a matching port: scat(name) or, for names that
+   are patterns ('#', '{'), the matched part of the message *)
 Definition app_of (name m pe : str) : str :=
-  if mem 35 name then firstn (length m - length pe) m else upto_colon name.
+  if is_pattern name then firstn (length m - length pe) m else upto_colon name.
 
 Definition is_leaf (t : tree) (i : Z) : bool :=
   match nth_error (subs_of t) (Z.to_nat i) with Some (Some _) => false | _ => true end.
@@ -294,17 +294,17 @@ Proof.
 Qed.
 
 Lemma tables_of_no_hash : forall T H name sub n,
-  tables_of T = Some H -> nth_error (t_ports T) n = Some (name, sub) -> mem 35 name = false.
+  tables_of T = Some H -> nth_error (t_ports T) n = Some (name, sub) -> is_pattern name = false.
 Proof.
   intros T H name sub n HT E. unfold tables_of in HT.
-  destruct (existsb (fun p => mem 35 (fst p)) (t_ports T)) eqn:X; [discriminate|].
+  destruct (existsb (fun p => is_pattern (fst p)) (t_ports T)) eqn:X; [discriminate|].
   apply not_true_iff_false. intros M. apply not_true_iff_false in X. apply X.
   apply existsb_exists. exists (name, sub). split; [eapply nth_error_In; eassumption | exact M].
 Qed.
 
 (* on a literal name the hashed branch appends what the linear one appends *)
 Lemma step_hashed_is_step_loc : forall cb tid m obj0 old st i name sub pe,
-  lit_port name -> mem 35 name = false -> loc st = Some old ->
+  lit_port name -> is_pattern name = false -> loc st = Some old ->
   step_hashed cb tid m obj0 old st i name sub = step_loc cb tid m obj0 old st (i, name, sub, pe).
 Proof.
   intros cb tid m obj0 old st i name sub pe (k & sb & tys & -> & Hwf & Hk) H35 L.
@@ -641,16 +641,22 @@ Qed.
 (* ---- loc holds the full address -------------------------------------------- *)
 Definition no_alt (p : pat) : Prop :=
   Forall (fun s => match s with Alt _ => False | _ => True end) (segs p).
+(* alternatives are text of one address component: no '/' (SNIP counts the
+   '/' of the NAME) and no ':' (the name's path ends at its first ':') *)
+Definition alt_plain_seg (s : seg) : Prop :=
+  match s with Alt a => Forall (fun x => ~ In 47 x /\ ~ In 58 x) a | _ => True end.
+Definition alts_plain (p : pat) : Prop := Forall alt_plain_seg (segs p).
 Definition no_slash (p : pat) : Prop :=
   Forall (fun s => match s with Lit k => ~ In 47 k | _ => True end) (segs p).
 
-(* names of the documented form: literal text and #N, any number of address
-   components ("a#2/b#3/", "x/y/", "a#2/k#2:i"); a port with sub-ports has a
+(* names of the documented form: literal text, #N and {a,b,..} (alternatives
+   without '/' and ':'), any number of address components ("a#2/b#3/", "x/y/",
+   "a#2/k#2:i", "{on,off}/", "p{q,r}#2:i"); a port with sub-ports has a
    trailing '/', a leaf has none *)
 Inductive names_ok : tree -> Prop :=
 | NamesOk : forall T subs,
     (forall n name sub, nth_error (t_ports T) n = Some (name, sub) ->
-       exists p, name = render p /\ wf_pat p /\ no_alt p /\
+       exists p, name = render p /\ wf_pat p /\ alts_plain p /\
          match nth_error subs n with
          | Some (Some _) => subtree p = true
          | _ => subtree p = false
@@ -684,6 +690,21 @@ Proof.
   induction l as [|s r IH]; intros H Ha; [constructor|]. inversion Ha as [|? ? Hs Hr]; subst.
   rewrite render_segs_cons, mem_app in H. apply orb_false_iff in H as [M1 M2].
   constructor; [|now apply IH]. destruct s as [k|ds|a]; [exact I | cbn in M1; discriminate | contradiction].
+Qed.
+
+Lemma no_pattern_lits : forall l, mem 35 (render_segs l) = false -> mem 123 (render_segs l) = false ->
+  Forall (fun s => match s with Lit _ => True | _ => False end) l.
+Proof.
+  induction l as [|s r IH]; intros H G; [constructor|].
+  rewrite render_segs_cons, mem_app in H, G.
+  apply orb_false_iff in H as [M1 M2]. apply orb_false_iff in G as [N1 N2].
+  constructor; [|now apply IH]. destruct s as [k|ds|a]; [exact I | cbn in M1; discriminate | cbn in N1; discriminate].
+Qed.
+
+Lemma no_alt_plain : forall p, no_alt p -> alts_plain p.
+Proof.
+  intros p H. unfold no_alt, alts_plain in *. eapply Forall_impl; [|exact H].
+  intros [k|ds|a] Hs; [exact I | exact I | contradiction].
 Qed.
 
 Lemma spells_no47 : forall l x, spells l x ->
@@ -785,42 +806,94 @@ Proof.
   destruct (c =? 47); reflexivity.
 Qed.
 
-Lemma render_segs_no58 : forall l, Forall seg_ok l ->
-  Forall (fun s => match s with Alt _ => False | _ => True end) l -> ~ In 58 (render_segs l).
+Lemma join_alts_in : forall a c, In c (join_alts a) -> c = 44 \/ exists x, In x a /\ In c x.
+Proof.
+  induction a as [|x r IH]; intros c Hin; [contradiction|].
+  destruct r as [|y r'].
+  - right. exists x. split; [now left | exact Hin].
+  - change (join_alts (x :: y :: r')) with (x ++ 44 :: join_alts (y :: r')) in Hin.
+    apply in_app_or in Hin as [Hin|[E|Hin]].
+    + right. exists x. split; [now left | exact Hin].
+    + left. now symmetry.
+    + destruct (IH c Hin) as [E|(z & Hz & Hc)]; [now left|]. right. exists z. split; [now right | exact Hc].
+Qed.
+
+(* the text of a group of plain alternatives holds neither '/' nor ':' *)
+Lemma render_alt_plain : forall a, alt_plain_seg (Alt a) ->
+  ~ In 47 (render_seg (Alt a)) /\ ~ In 58 (render_seg (Alt a)).
+Proof.
+  intros a Hp. cbn [alt_plain_seg] in Hp. rewrite Forall_forall in Hp. cbn [render_seg].
+  split; intros [E|Hin]; try discriminate; apply in_app_or in Hin as [Hin|[E|[]]]; try discriminate;
+    destruct (join_alts_in _ _ Hin) as [E|(x & Hx & Hc)]; try discriminate;
+    destruct (Hp _ Hx) as [A B]; contradiction.
+Qed.
+
+Lemma cnt47_none : forall x, ~ In 47 x -> cnt47 x = O.
+Proof.
+  induction x as [|c x IH]; intros H; [reflexivity|]. cbn [cnt47].
+  destruct (c =? 47) eqn:E; [apply Z.eqb_eq in E; subst; exfalso; apply H; now left|].
+  apply IH. intros G. apply H. now right.
+Qed.
+
+Lemma render_segs_no58_p : forall l, Forall seg_ok l -> Forall alt_plain_seg l -> ~ In 58 (render_segs l).
 Proof.
   induction l as [|s r IH]; intros Hs Ha; [intros []|].
   inversion Hs as [|? ? Hs1 Hsr]; subst. inversion Ha as [|? ? Ha1 Har]; subst.
   rewrite render_segs_cons. intros Hin. apply in_app_or in Hin as [Hin|Hin]; [|now apply IH].
-  destruct s as [k|ds|a]; [| |contradiction]; cbn [render_seg] in Hin.
-  - destruct Hs1 as [_ Hk]. rewrite Forall_forall in Hk. destruct (Hk _ Hin) as (_ & H58 & _). congruence.
-  - destruct Hs1 as (_ & Hd & _). unfold digits in Hd. rewrite Forall_forall in Hd.
+  destruct s as [k|ds|a].
+  - cbn [render_seg] in Hin. destruct Hs1 as [_ Hk]. rewrite Forall_forall in Hk.
+    destruct (Hk _ Hin) as (_ & H58 & _). congruence.
+  - cbn [render_seg] in Hin. destruct Hs1 as (_ & Hd & _). unfold digits in Hd. rewrite Forall_forall in Hd.
     destruct Hin as [E|Hin]; [discriminate|]. specialize (Hd _ Hin). discriminate.
+  - now apply (proj2 (render_alt_plain a Ha1)).
 Qed.
 
-(* the spelled text has as many '/' as the name's path *)
-Lemma cnt47_spells : forall l x, spells l x -> Forall seg_ok l ->
-  Forall (fun s => match s with Alt _ => False | _ => True end) l -> cnt47 x = cnt47 (render_segs l).
+Lemma render_segs_no58 : forall l, Forall seg_ok l ->
+  Forall (fun s => match s with Alt _ => False | _ => True end) l -> ~ In 58 (render_segs l).
+Proof.
+  intros l Hs Ha. apply render_segs_no58_p; [exact Hs|]. eapply Forall_impl; [|exact Ha].
+  intros [k|ds|a] H; [exact I | exact I | contradiction].
+Qed.
+
+(* the spelled text has as many '/' as the name's path: an alternative and
+   the text of its group have none *)
+Lemma cnt47_spells_p : forall l x, spells l x -> Forall seg_ok l ->
+  Forall alt_plain_seg l -> cnt47 x = cnt47 (render_segs l).
 Proof.
   induction 1 as [|s r x y Hs Sp IH]; intros Hok Ha; [reflexivity|].
   inversion Hok as [|? ? Hs1 Hsr]; subst. inversion Ha as [|? ? Ha1 Har]; subst.
   rewrite render_segs_cons, !cnt47_app, (IH Hsr Har). f_equal.
-  destruct Hs as [k|ds x Hne Hd Hlt|a x Hx]; [reflexivity | | contradiction].
-  cbn [render_seg cnt47]. replace (35 =? 47) with false by reflexivity.
-  destruct Hs1 as (_ & Hds & _). rewrite (cnt47_digits _ Hd), (cnt47_digits _ Hds). reflexivity.
+  destruct Hs as [k|ds x Hne Hd Hlt|a x Hx]; [reflexivity | |].
+  - cbn [render_seg cnt47]. replace (35 =? 47) with false by reflexivity.
+    destruct Hs1 as (_ & Hds & _). rewrite (cnt47_digits _ Hd), (cnt47_digits _ Hds). reflexivity.
+  - rewrite (cnt47_none (render_seg (Alt a))) by (apply (render_alt_plain a Ha1)).
+    apply cnt47_none. cbn [alt_plain_seg] in Ha1. rewrite Forall_forall in Ha1. apply (Ha1 _ Hx).
 Qed.
 
-Lemma count_slash_render_sub : forall p, wf_pat p -> no_alt p -> subtree p = true ->
+Lemma cnt47_spells : forall l x, spells l x -> Forall seg_ok l ->
+  Forall (fun s => match s with Alt _ => False | _ => True end) l -> cnt47 x = cnt47 (render_segs l).
+Proof.
+  intros l x Sp Hs Ha. apply cnt47_spells_p; [exact Sp | exact Hs |]. eapply Forall_impl; [|exact Ha].
+  intros [k|ds|a] H; [exact I | exact I | contradiction].
+Qed.
+
+Lemma count_slash_render_sub_p : forall p, wf_pat p -> alts_plain p -> subtree p = true ->
   count_slash (render p) = S (cnt47 (render_segs (segs p))).
 Proof.
   intros p Hwf Ha St. destruct Hwf as (Hs & _ & _ & Ht).
   unfold render, render_tail. rewrite St.
-  rewrite count_slash_app_nocolon by (now apply render_segs_no58).
+  rewrite count_slash_app_nocolon by (now apply render_segs_no58_p).
   destruct (render_types_shape (types p) Ht) as [->|[X ->]]; cbn; lia.
 Qed.
 
-(* the text appended to loc is the matched part of the message *)
-Lemma app_is_matched : forall p m pe,
-  wf_pat p -> no_alt p -> path_spec p m pe ->
+Lemma count_slash_render_sub : forall p, wf_pat p -> no_alt p -> subtree p = true ->
+  count_slash (render p) = S (cnt47 (render_segs (segs p))).
+Proof. intros p Hwf Ha. apply count_slash_render_sub_p; [exact Hwf | now apply no_alt_plain]. Qed.
+
+(* the text appended to loc is the matched part of the message - for every
+   name of the documented form, alternatives included *)
+Lemma app_is_matched_p : forall p m pe,
+  wf_pat p -> alts_plain p -> path_spec p m pe ->
   m = app_of (render p) m pe ++ pe /\
   (subtree p = false -> pe = []) /\
   (subtree p = true -> snipk (render p) m = pe).
@@ -832,29 +905,38 @@ Proof.
     - destruct Sp as (x & Sx & ->). exists x. rewrite <- app_assoc. repeat split; [assumption | discriminate].
     - destruct Sp as [Sx ->]. exists m. rewrite !app_nil_r. auto. }
   destruct HX as (x & Sx & Em & Hpe). split; [|split; [exact Hpe|]].
-  - unfold app_of. destruct (mem 35 (render p)) eqn:H35.
+  - unfold app_of. destruct (is_pattern (render p)) eqn:HP.
     + rewrite Em. rewrite app_length, Nat.add_sub, firstn_app_exact. reflexivity.
-    + unfold render in H35 |- *. rewrite mem_app in H35. apply orb_false_iff in H35 as [H35 _].
-      pose proof (no_hash_lits _ H35 Ha) as Hl. pose proof (spells_lits _ _ Sx Hl) as Ex.
+    + unfold is_pattern in HP. apply orb_false_iff in HP as [H35 H123].
+      unfold render in H35, H123 |- *. rewrite mem_app in H35, H123.
+      apply orb_false_iff in H35 as [H35 _]. apply orb_false_iff in H123 as [H123 _].
+      pose proof (no_pattern_lits _ H35 H123) as Hl. pose proof (spells_lits _ _ Sx Hl) as Ex.
       destruct Hwf as (Hs & _ & _ & Ht). unfold render_tail. rewrite app_assoc.
       rewrite upto_colon_key; [now rewrite <- Ex | | now apply render_types_shape].
       intros Hin. apply in_app_or in Hin as [Hin|Hin]; [now apply (segs_no_colon _ Hs Hl)|].
       destruct (subtree p); cbn in Hin; [destruct Hin as [Hin|[]]; discriminate | contradiction].
   - intros St. rewrite St in Em. rewrite Em, <- app_assoc. cbn [app].
-    unfold snipk. rewrite (count_slash_render_sub p Hwf Ha St).
-    rewrite <- (cnt47_spells _ _ Sx (proj1 Hwf) Ha).
+    unfold snipk. rewrite (count_slash_render_sub_p p Hwf Ha St).
+    rewrite <- (cnt47_spells_p _ _ Sx (proj1 Hwf) Ha).
     replace (Nat.max 1 (S (cnt47 x))) with (S (cnt47 x)) by lia.
     apply snipn_cnt.
 Qed.
+
+Lemma app_is_matched : forall p m pe,
+  wf_pat p -> no_alt p -> path_spec p m pe ->
+  m = app_of (render p) m pe ++ pe /\
+  (subtree p = false -> pe = []) /\
+  (subtree p = true -> snipk (render p) m = pe).
+Proof. intros p m pe Hwf Ha. apply app_is_matched_p; [exact Hwf | now apply no_alt_plain]. Qed.
 
 (* the recursion contract for a name of any number of components: the level
    below receives exactly what follows the text the name matched, and that
    text is what went into loc *)
 Theorem snip_strips_matched_name : forall p m pe,
-  wf_pat p -> no_alt p -> subtree p = true -> path_spec p m pe ->
+  wf_pat p -> alts_plain p -> subtree p = true -> path_spec p m pe ->
   snipk (render p) m = pe /\ m = app_of (render p) m pe ++ pe.
 Proof.
-  intros p m pe Hwf Ha St Sp. destruct (app_is_matched p m pe Hwf Ha Sp) as (Em & _ & Hs).
+  intros p m pe Hwf Ha St Sp. destruct (app_is_matched_p p m pe Hwf Ha Sp) as (Em & _ & Hs).
   split; [now apply Hs | exact Em].
 Qed.
 
@@ -883,7 +965,7 @@ Proof.
     destruct (Hnames _ _ _ En) as (p & -> & Hwf & Hna & Hkind).
     destruct (rtosc_match_path_ret _ _ _ _ M) as [r Mp].
     destruct (path_sound _ _ _ _ Hwf Ham Mp) as [_ Sp].
-    destruct (app_is_matched p m pe Hwf Hna Sp) as (Em & Hleaf & Hdesc).
+    destruct (app_is_matched_p p m pe Hwf Hna Sp) as (Em & Hleaf & Hdesc).
     unfold visit in He. cbn [tab_of subs_of option_map] in He.
     replace (Z.to_nat (0 + Z.of_nat n)) with n in He by lia.
     unfold is_leaf in He. cbn [subs_of] in He.
@@ -1209,6 +1291,95 @@ Lemma tree_mc_run :
      log := [Ev 0 1 [97; 49; 47; 107; 48] 1 (Some [47; 97; 49; 47; 107; 48]) (Some (0, 1)) true] |}.
 Proof. split; vm_compute; reflexivity. Qed.
 
+(* ---- non-vacuity for names with alternatives ---------------------------------
+   { {on,off}/ -> { x, y:i }, p{q,r}#2:i } with /off/y and /pr1, types "i" *)
+Definition tab_alt_sub : table :=
+  {| t_id := 1; t_dflt := false; t_ports := [([120], false); ([121; 58; 105], false)]; t_pos := []; t_assoc := [] |}.
+Definition tab_alt_root : table :=
+  {| t_id := 0; t_dflt := false;
+     t_ports := [([123; 111; 110; 44; 111; 102; 102; 125; 47], true);
+                 ([112; 123; 113; 44; 114; 125; 35; 50; 58; 105], false)];
+     t_pos := []; t_assoc := [] |}.
+Definition tree_alt : tree := Node tab_alt_root [Some (Node tab_alt_sub [None; None]); None].
+(* /off/y   /pr1 *)
+Definition msg_alt : str := [47; 111; 102; 102; 47; 121].
+Definition msg_alt2 : str := [47; 112; 114; 49].
+
+Lemma tree_alt_tree_ok : tree_ok tree_alt.
+Proof.
+  constructor.
+  - intros [|[|[|n]]] name sub E; cbn in E; inversion E; subst; cbn; split; intros H;
+      try discriminate; try reflexivity; try (eexists; reflexivity); try (destruct H; discriminate).
+  - left. vm_compute. reflexivity.
+  - intros [|[|[|n]]] s E; cbn in E; inversion E; subst. constructor.
+    + intros [|[|[|n]]] name sub E2; cbn in E2; inversion E2; subst; cbn; split; intros H;
+        try discriminate; try (destruct H; discriminate).
+    + left. vm_compute. reflexivity.
+    + intros [|[|[|n]]] s E2; cbn in E2; discriminate.
+Qed.
+
+Lemma tree_alt_ok : root_ok tree_alt msg_alt /\ root_ok tree_alt msg_alt2.
+Proof.
+  split; (split; [exact tree_alt_tree_ok | split; [repeat constructor; discriminate | repeat constructor; lia]]).
+Qed.
+
+Ltac prove_plain :=
+  repeat constructor; intros Hx; cbn in Hx; repeat (destruct Hx as [Hx|Hx]; [discriminate|]); exact Hx.
+
+Lemma tree_alt_names : names_ok tree_alt /\ addr_ok (strip msg_alt) /\ addr_ok (strip msg_alt2).
+Proof.
+  split; [|split; repeat constructor; discriminate].
+  constructor.
+  - intros [|[|[|n]]] name sub E; cbn in E; inversion E; subst; cbn [nth_error].
+    + exists {| segs := [Alt [[111; 110]; [111; 102; 102]]]; subtree := true; types := None |}.
+      split; [reflexivity|]. split; [unfold wf_pat; prove_wf|]. split; [prove_plain | reflexivity].
+    + exists {| segs := [Lit [112]; Alt [[113]; [114]]; Enum [50]]; subtree := false; types := Some [[105]] |}.
+      split; [reflexivity|]. split; [unfold wf_pat; prove_wf|]. split; [prove_plain | reflexivity].
+  - intros [|[|[|n]]] s E; cbn in E; inversion E; subst. constructor.
+    + intros [|[|[|n]]] name sub E2; cbn in E2; inversion E2; subst; cbn [nth_error].
+      * exists {| segs := [Lit [120]]; subtree := false; types := None |}.
+        split; [reflexivity|]. split; [unfold wf_pat; prove_wf|]. split; [repeat constructor | reflexivity].
+      * exists {| segs := [Lit [121]]; subtree := false; types := Some [[105]] |}.
+        split; [reflexivity|]. split; [unfold wf_pat; prove_wf|]. split; [repeat constructor | reflexivity].
+    + intros [|[|[|n]]] s E2; cbn in E2; discriminate.
+Qed.
+
+Lemma tree_alt_addressed :
+  addressed [0%nat; 1%nat] tree_alt (strip msg_alt) [105] /\
+  addressed [1%nat] tree_alt (strip msg_alt2) [105].
+Proof.
+  split.
+  - cbn [addressed]. exists [123; 111; 110; 44; 111; 102; 102; 125; 47], true, [121]. split.
+    + split; [reflexivity|]. split; [vm_compute; reflexivity|].
+      intros [|[|[|n]]] name sub Hn E pe'; cbn in E; inversion E; subst; try congruence.
+      vm_compute. discriminate.
+    + cbn. exists [121; 58; 105], false, []. split; [|reflexivity].
+      split; [reflexivity|]. split; [vm_compute; reflexivity|].
+      intros [|[|[|n]]] name sub Hn E pe'; cbn in E; inversion E; subst; try congruence.
+      vm_compute. discriminate.
+  - cbn [addressed]. exists [112; 123; 113; 44; 114; 125; 35; 50; 58; 105], false, []. split; [|reflexivity].
+    split; [reflexivity|]. split; [vm_compute; reflexivity|].
+    intros [|[|[|n]]] name sub Hn E pe'; cbn in E; inversion E; subst; try congruence.
+    vm_compute. discriminate.
+Qed.
+
+Lemma tree_alt_run :
+  dispatch tree_alt msg_alt [105] true 1 =
+  {| loc := Some [47]; matches := 1; obj := 1; dport := Some (1, 1);
+     log := [Ev 1 1 [121] 132 (Some [47; 111; 102; 102; 47; 121]) (Some (1, 1)) true;
+             Ev 0 0 [111; 102; 102; 47; 121] 1 (Some [47; 111; 102; 102; 47]) (Some (0, 0)) false] |} /\
+  dispatch tree_alt msg_alt [105] false 1 =
+  {| loc := None; matches := 0; obj := 1; dport := Some (1, 1);
+     log := [Ev 1 1 [121] 132 None (Some (1, 1)) true;
+             Ev 0 0 [111; 102; 102; 47; 121] 1 None (Some (0, 0)) false] |} /\
+  dispatch tree_alt msg_alt2 [105] true 1 =
+  {| loc := Some [47]; matches := 1; obj := 1; dport := Some (0, 1);
+     log := [Ev 0 1 [112; 114; 49] 1 (Some [47; 112; 114; 49]) (Some (0, 1)) true] |} /\
+  dispatch tree_alt msg_alt2 [105] false 1 =
+  {| loc := None; matches := 0; obj := 1; dport := Some (0, 1);
+     log := [Ev 0 1 [112; 114; 49] 1 None (Some (0, 1)) true] |}.
+Proof. repeat split; vm_compute; reflexivity. Qed.
+
 (* ---- the index an enumerated parent hands down ------------------------------ *)
 Lemma take_digits_app : forall x r, digits x -> starts_with_digit r = false -> take_digits (x ++ r) = x.
 Proof.
@@ -1259,11 +1430,11 @@ Proof. split; reflexivity. Qed.
    the same scan_hits as without one (scan_loc_fold / scan_noloc_fold), so
    tree_ok asks nothing of it *)
 Theorem unhashed_tables : forall T,
-  (exists p, In p (t_ports T) /\ (mem 35 (fst p) = true \/ inner_slash (fst p) = true)) ->
+  (exists p, In p (t_ports T) /\ (is_pattern (fst p) = true \/ inner_slash (fst p) = true)) ->
   tables_of T = None.
 Proof.
   intros T (p & Hin & Hp). unfold tables_of.
-  destruct (existsb (fun p => mem 35 (fst p)) (t_ports T)) eqn:E1; [reflexivity|].
+  destruct (existsb (fun p => is_pattern (fst p)) (t_ports T)) eqn:E1; [reflexivity|].
   destruct (existsb (fun p => inner_slash (fst p)) (t_ports T)) eqn:E2; [reflexivity|].
   exfalso. destruct Hp as [Hp|Hp].
   - apply not_true_iff_false in E1. apply E1. apply existsb_exists. eauto.
